@@ -60,7 +60,10 @@ class InterruptableThread(threading.Thread):
         """
         try:
             self.result = self.func(*self.args, **self.kwargs)
-        except Exception:
+        except BaseException:
+            # Also SystemExit and KeyboardInterrupt: a thread swallows them
+            # silently, but the caller of `timeout` must see how the function
+            # ended (an abandoned thread ends here too; nobody reads it then).
             self.exc_info = sys.exc_info()
 
     @staticmethod
